@@ -101,7 +101,22 @@ type c43Node struct {
 	Subnet int   // 0 or 1
 	NoAddr bool  // node resource without any address
 	Only   uint8 // 0: addresses of both families; 4 / 6: only that family
+	// Src: where the node resource carries its host address(es).  The node's address is the one
+	// in the BGP spec if that supplies one, otherwise the InternalIP, otherwise the ExternalIP of
+	// the node's address list.
+	//   bgp               BGP.IPv4Address/IPv6Address
+	//   bgp+list          the same, and the address list repeats the addresses as InternalIP
+	//   list              no BGP spec; InternalIP in the address list
+	//   tunnelbgp+list    BGP spec carries only a tunnel address; InternalIP in the address list
+	//   emptybgp+external empty BGP spec; ExternalIP in the address list
+	//   list-ext+int      no BGP spec; an unrelated ExternalIP listed before the InternalIP
+	Src    string
+	NoMask bool // address-list entries are bare IPs (the node's network is then just that address)
 }
+
+var c43NodeSrcs = []string{"bgp", "bgp", "bgp+list", "list", "tunnelbgp+list", "emptybgp+external", "list-ext+int"}
+
+func (n c43Node) fromList() bool { return n.Src != "bgp" && n.Src != "bgp+list" }
 
 func (n c43Node) has(v uint8) bool { return !n.NoAddr && (n.Only == 0 || n.Only == v) }
 
@@ -139,9 +154,29 @@ func c43Name(k int) string { return fmt.Sprintf("node-%d", k) }
 func (w *c43World) nodeAddr(k int, v uint8) (ip string, cidr string) {
 	n := w.Nodes[k]
 	if v == 6 {
-		return fmt.Sprintf("fd16:%d::%x", n.Subnet+1, 16+k), fmt.Sprintf("fd16:%d::%x/64", n.Subnet+1, 16+k)
+		ip, cidr = fmt.Sprintf("fd16:%d::%x", n.Subnet+1, 16+k), fmt.Sprintf("fd16:%d::%x/64", n.Subnet+1, 16+k)
+	} else {
+		ip, cidr = fmt.Sprintf("172.16.%d.%d", n.Subnet, 16+k), fmt.Sprintf("172.16.%d.%d/24", n.Subnet, 16+k)
 	}
-	return fmt.Sprintf("172.16.%d.%d", n.Subnet, 16+k), fmt.Sprintf("172.16.%d.%d/24", n.Subnet, 16+k)
+	if n.fromList() && n.NoMask {
+		cidr = ip
+	}
+	return
+}
+
+// inLocalSubnet: is node k's address (family under test) inside the local node's network?
+func (w *c43World) inLocalSubnet(k int) bool {
+	if !w.known(0) || !w.known(k) {
+		return false
+	}
+	if k == 0 {
+		return true
+	}
+	l := w.Nodes[0]
+	if l.fromList() && l.NoMask {
+		return false // the local network is the single local address
+	}
+	return l.Subnet == w.Nodes[k].Subnet
 }
 
 func (w *c43World) poolCIDR(p int) string {
@@ -181,14 +216,56 @@ func (w *c43World) nodeUpdate(k int) api.Update {
 	}
 	node := &internalapi.Node{ObjectMeta: metav1.ObjectMeta{Name: c43Name(k)}}
 	if !n.NoAddr {
-		_, c4 := w.nodeAddr(k, 4)
-		_, c6 := w.nodeAddr(k, 6)
-		node.Spec.BGP = &internalapi.NodeBGPSpec{}
-		if n.has(4) {
-			node.Spec.BGP.IPv4Address = c4
+		ip4, c4 := w.nodeAddr(k, 4)
+		ip6, c6 := w.nodeAddr(k, 6)
+		list := func(typ string, bare bool) {
+			if n.has(4) {
+				a := c4
+				if bare {
+					a = ip4
+				}
+				node.Spec.Addresses = append(node.Spec.Addresses, internalapi.NodeAddress{Address: a, Type: typ})
+			}
+			if n.has(6) {
+				a := c6
+				if bare {
+					a = ip6
+				}
+				node.Spec.Addresses = append(node.Spec.Addresses, internalapi.NodeAddress{Address: a, Type: typ})
+			}
 		}
-		if n.has(6) {
-			node.Spec.BGP.IPv6Address = c6
+		switch n.Src {
+		case "bgp", "bgp+list":
+			node.Spec.BGP = &internalapi.NodeBGPSpec{}
+			if n.has(4) {
+				node.Spec.BGP.IPv4Address = c4
+			}
+			if n.has(6) {
+				node.Spec.BGP.IPv6Address = c6
+			}
+			if n.Src == "bgp+list" {
+				list(internalapi.InternalIP, true)
+			}
+		case "list":
+			list(internalapi.InternalIP, false)
+		case "tunnelbgp+list":
+			node.Spec.BGP = &internalapi.NodeBGPSpec{IPv4IPIPTunnelAddr: fmt.Sprintf("10.250.0.%d", 16+k)}
+			list(internalapi.InternalIP, false)
+		case "emptybgp+external":
+			node.Spec.BGP = &internalapi.NodeBGPSpec{}
+			list(internalapi.ExternalIP, false)
+		case "list-ext+int":
+			if n.has(4) {
+				node.Spec.Addresses = append(node.Spec.Addresses,
+					internalapi.NodeAddress{Address: fmt.Sprintf("192.0.2.%d", 16+k), Type: internalapi.ExternalIP})
+			}
+			if n.has(6) {
+				node.Spec.Addresses = append(node.Spec.Addresses,
+					internalapi.NodeAddress{Address: fmt.Sprintf("2001:db8::%x", 16+k), Type: internalapi.ExternalIP})
+			}
+			list(internalapi.InternalIP, false)
+		default:
+			panic("unknown node address source " + n.Src)
 		}
 	}
 	return api.Update{KVPair: model.KVPair{Key: key, Value: node}, UpdateType: api.UpdateTypeKVUpdated}
@@ -294,7 +371,7 @@ func (w *c43World) fill(x *c43Want, p int, holder int) {
 		x.NodeIP, _ = w.nodeAddr(holder, w.V)
 	}
 	// SameSubnet <=> pool allows cross-subnet AND the holder's address is in the local node's subnet.
-	x.SameSubnet = cross && w.known(0) && w.known(holder) && w.Nodes[0].Subnet == w.Nodes[holder].Subnet
+	x.SameSubnet = cross && w.inLocalSubnet(holder)
 }
 
 func (w *c43World) reference() map[string]*c43Want {
@@ -360,7 +437,7 @@ func (w *c43World) describe() string {
 			if !n.has(w.V) {
 				ip, cidr = "-", "-"
 			}
-			fmt.Fprintf(&sb, "\n   node-%d addr=%s net=%s", k, ip, cidr)
+			fmt.Fprintf(&sb, "\n   node-%d addr=%s net=%s carried-by=%s", k, ip, cidr, n.Src)
 		}
 	}
 	for p := 0; p < 3; p++ {
@@ -485,7 +562,7 @@ func c43DiffRoutes(a, b map[string]*felixproto.RouteUpdate) string {
 func TestVerifC43Resolver(t *testing.T) {
 	ev.Quiet()
 	rec := ev.New("C43", "resolver",
-		"histories of Node (4 nodes; subnet A/B, both families / one family / no address), IPPool (3 pools; IPIP/VXLAN Always/CrossSubnet or no encap; NAT on/off), IPAM block (2 per pool; affinity to any node or none; up to 3 allocations held by any node = borrowed IPs) and local workload endpoint updates/deletions, IPv4 or IPv6, flushes at arbitrary points; each case starts with a populated cluster delivered in a random permutation, followed by changes; non-trivial = final state has a remote block or borrowed address inside a pool AND the history re-ordered or changed something (a node/pool/block was updated or deleted after first being set, or a block arrived before its pool, its owner node or the local node); distinct = distinct op sequence",
+		"histories of Node (4 nodes; subnet A/B, both families / one family / no address; address carried by the BGP spec, by InternalIP or ExternalIP entries of the address list with or without prefix length, with absent / empty / tunnel-address-only BGP spec; the way a node carries its address changes in later updates), IPPool (3 pools; IPIP/VXLAN Always/CrossSubnet or no encap; NAT on/off), IPAM block (2 per pool; affinity to any node or none; up to 3 allocations held by any node = borrowed IPs) and local workload endpoint updates/deletions, IPv4 or IPv6, flushes at arbitrary points; each case starts with a populated cluster delivered in a random permutation, followed by changes; non-trivial = final state has a remote block or borrowed address inside a pool AND the history re-ordered or changed something (a node/pool/block was updated or deleted after first being set, or a block arrived before its pool, its owner node or the local node); distinct = distinct op sequence",
 		"pools are disjoint, node addresses lie outside all pools, one allocation per address (datastore invariants)",
 		"only local workload endpoints are generated (RouteSource=CalicoIPAM registers the resolver for local endpoints only)",
 		"a live local workload's address is always allocated to the local node in an existing block (workloads are deleted before their address is released); without this the resolver's /32 flags depend on arrival order, see report")
@@ -517,7 +594,22 @@ func TestVerifC43Resolver(t *testing.T) {
 		}
 		drawNode := func() c43Node {
 			return c43Node{Subnet: rapid.SampledFrom([]int{0, 0, 1}).Draw(t, "subnet"), NoAddr: rapid.IntRange(0, 7).Draw(t, "noAddr") == 0,
-				Only: rapid.SampledFrom([]uint8{0, 0, 0, 0, 4, 6}).Draw(t, "onlyFamily")}
+				Only:   rapid.SampledFrom([]uint8{0, 0, 0, 0, 4, 6}).Draw(t, "onlyFamily"),
+				Src:    rapid.SampledFrom(c43NodeSrcs).Draw(t, "addressSource"),
+				NoMask: rapid.IntRange(0, 3).Draw(t, "bareListAddress") == 0}
+		}
+		noteNode := func(k int) {
+			n := w.Nodes[k]
+			if n.NoAddr {
+				return
+			}
+			classes["node-src-"+n.Src] = true
+			if n.fromList() && n.NoMask {
+				classes["node-bare-list-address"] = true
+			}
+			if k == 0 && n.fromList() {
+				classes["local-node-address-from-list"] = true
+			}
 		}
 		drawPool := func() c43Pool {
 			return c43Pool{
@@ -565,6 +657,7 @@ func TestVerifC43Resolver(t *testing.T) {
 			switch it.kind {
 			case "node":
 				seenNode[it.a] = true
+				noteNode(it.a)
 				a.send(w.nodeUpdate(it.a))
 				shape = append(shape, fmt.Sprintf("N%d:%v", it.a, w.Nodes[it.a]))
 			case "pool":
@@ -591,7 +684,7 @@ func TestVerifC43Resolver(t *testing.T) {
 		// Phase 2: changes.
 		nOps := rapid.IntRange(0, ev.Scale(10, 24)).Draw(t, "nOps")
 		for i := 0; i < nOps; i++ {
-			switch rapid.SampledFrom([]string{"node", "node", "pool", "pool", "block", "block", "block", "wep", "delNode", "delPool", "delBlock", "delWep", "flush", "flush", "insync"}).Draw(t, "op") {
+			switch rapid.SampledFrom([]string{"node", "node", "nodeShape", "nodeShape", "pool", "pool", "block", "block", "block", "wep", "delNode", "delPool", "delBlock", "delWep", "flush", "flush", "insync"}).Draw(t, "op") {
 			case "node":
 				k := rapid.IntRange(0, 3).Draw(t, "node")
 				if _, ok := w.Nodes[k]; ok {
@@ -603,8 +696,34 @@ func TestVerifC43Resolver(t *testing.T) {
 					classes["node-after-block"] = true
 				}
 				w.Nodes[k] = drawNode()
+				noteNode(k)
 				a.send(w.nodeUpdate(k))
 				shape = append(shape, fmt.Sprintf("N%d:%v", k, w.Nodes[k]))
+			case "nodeShape":
+				// The node keeps its address but the resource carries it differently (e.g. the BGP
+				// address is withdrawn while the InternalIP stays).
+				var have []int
+				for k := 0; k < 4; k++ {
+					if n, ok := w.Nodes[k]; ok && !n.NoAddr {
+						have = append(have, k)
+					}
+				}
+				if len(have) == 0 {
+					shape = append(shape, "-")
+					continue
+				}
+				k := rapid.SampledFrom(have).Draw(t, "node")
+				n := w.Nodes[k]
+				n.Src = rapid.SampledFrom(c43NodeSrcs).Draw(t, "addressSource")
+				n.NoMask = rapid.IntRange(0, 3).Draw(t, "bareListAddress") == 0
+				if n != w.Nodes[k] {
+					reordered = true
+					classes["node-address-source-changed"] = true
+				}
+				w.Nodes[k] = n
+				noteNode(k)
+				a.send(w.nodeUpdate(k))
+				shape = append(shape, fmt.Sprintf("S%d:%v", k, n))
 			case "delNode":
 				k := rapid.IntRange(0, 3).Draw(t, "node")
 				if _, ok := w.Nodes[k]; !ok {
